@@ -101,6 +101,29 @@ def fs_search(res, tier, rng, exe):
             if stray:
                 if res.violation("cabextract created %s beside the destination directory (plan %s)" % (stray, plan), "# names %s\n# cab %s\n" % ([nm.hex() for nm in names], cab.hex()), key="fs:stray"): nbad += 1
             shutil.rmtree(work, ignore_errors=True)
+        # directed: a directory link in the archive-controlled part of the path that the extracting user cannot remove (the destination is
+        # not writable for it, the link's target is): run as an unprivileged user - nothing may be written through the link
+        if os.geteuid() == 0:
+            for k, sep in enumerate((b"/", b"\\")):
+                work = os.path.join(base, "wu%d" % k); dest = os.path.join(work, "dest"); outside = os.path.join(work, "outside")
+                os.makedirs(dest); os.makedirs(os.path.join(outside, "sub")); open(os.path.join(outside, "victim.txt"), "w").write("original")
+                os.symlink(outside, os.path.join(dest, "assets")); os.symlink(os.path.join(outside, "sub"), os.path.join(dest, "deep"))
+                names = [b"assets" + sep + b"new.txt", b"assets" + sep + b"victim.txt", b"deep" + sep + b"x" + sep + b"y.txt"]
+                cab = cabfmt.build_single([cabfmt.Folder(("none",), [cabfmt.Member(nm, b"payload-%d" % j) for j, nm in enumerate(names)])], random.Random(16))
+                cabp = os.path.join(work, "t.cab"); open(cabp, "wb").write(cab)
+                for d_ in (base, work): os.chmod(d_, 0o755)
+                for dp, dn, fn in os.walk(outside): os.chmod(dp, 0o777)
+                os.chmod(os.path.join(outside, "victim.txt"), 0o666); os.chmod(dest, 0o555)
+                def drop(): os.setgid(65534); os.setuid(65534)
+                before = snapshot(outside)
+                r = subprocess.run([exe] + [[], ["-q"]][k] + ["-d", dest, cabp], capture_output=True, timeout=30, cwd="/", preexec_fn=drop)
+                after = snapshot(outside); n += 1
+                res.evaluations += 1; res.nontrivial.add(("unremovable-link", k)); res.count("fs-unremovable-link")
+                if before != after:
+                    diff = {k_: (before.get(k_), after.get(k_)) for k_ in set(before) | set(after) if before.get(k_) != after.get(k_)}
+                    if res.violation("cabextract -d dest (run as an unprivileged user, links it cannot remove) changed files outside the destination: %s" % str(diff)[:200],
+                                     "# C16 file-system scenario: dest mode 0555 holding links assets -> outside, deep -> outside/sub; run as uid 65534\n# member names (hex): %s\n# cabinet (hex): %s\n" % ([nm.hex() for nm in names], cab.hex()), key="fs:unremovable-link"): nbad += 1
+                os.chmod(dest, 0o755); shutil.rmtree(work, ignore_errors=True)
     finally:
         shutil.rmtree(base, ignore_errors=True)
     res.oblige("search: %d sandbox runs of the cabextract binary left everything outside the destination untouched" % n, nbad == 0)
